@@ -56,6 +56,23 @@ let sink_probe (t : string list) : string =
      @ [Printf.sprintf "rows=%d" rows; "boot=" ^ mark_out (M.frames_mark stored);
         "frames=" ^ (if fr = [] then "-" else Stdlib.String.concat "," fr)])
 
+(* matwm_filter <ts>.<id> <en> <batch>|...   the model's watermark filter on the core timestamp *)
+let wm_probe (t : string list) : string =
+  match t with
+  | _ :: m :: en :: rest ->
+      let mark = pair_in m in
+      let q = { M.q_ctx = None; q_where = None; q_since = None; q_tf = (if en = "1" then M.TCore else M.TPayload);
+                q_tf_returned = (en = "1"); q_limit = None } in
+      let spec = match rest with s :: _ -> s | [] -> "" in
+      let frames = Stdlib.List.filter (fun s -> s <> "") (split '|' spec) in
+      Stdlib.String.concat " " (Stdlib.List.map (fun f ->
+          if f = "-" then "skip" else
+            let rows = Stdlib.List.map row3 (split ',' f) in
+            let kept = M.show_filter q mark rows in
+            if kept = [] then "none"
+            else Stdlib.String.concat "+" (Stdlib.List.map (fun e -> string_of_n e.M.e_k) kept)) frames)
+  | _ -> "BADCASE"
+
 (* ---- engine-level histories *)
 let event_in (s : string) : M.event =
   match split '.' s with
@@ -149,7 +166,8 @@ let run (t : string list) : string =
     | "mat_hw" :: _ -> hw_probe t
     | "mat_sink" :: _ -> sink_probe t
     | "mat_run" :: _ -> run_probe t
+    | "matwm_filter" :: _ -> wm_probe t
     | _ -> "UNKNOWN_PROBE"
   with Failure m -> "BADCASE " ^ m | Not_found -> "BADCASE" | Invalid_argument m -> "BADCASE " ^ m
 
-let init () = Registry.register "mat_" run
+let init () = Registry.register "mat_" run; Registry.register "matwm_" run
